@@ -94,6 +94,15 @@ pub fn run(ctx: &mut Ctx) {
             rendezvous(ctx, case, &mut crng, [4usize, 2, 8, 3, 16, 5, 32, 6][k as usize % 8]);
         }
     }
+    // contention without any perturbation: threads hammering random contents of different clusters
+    let nh = if ctx.quick() { 3 } else { 12 };
+    for k in 0..nh as u64 {
+        let case = (n + nr) as u64 + k;
+        if ctx.wants(case) {
+            let mut crng = rng.fork(case);
+            hammer(ctx, case, &mut crng, [8usize, 16, 4, 32][k as usize % 4], [Comp::None, Comp::Zstd(1), Comp::Lz4(1), Comp::Lzma(0)][k as usize % 4]);
+        }
+    }
     for case in 0..n as u64 {
         let mut crng = rng.fork(case);
         if !ctx.wants(case) {
@@ -478,5 +487,110 @@ fn rendezvous(ctx: &mut Ctx, case: u64, rng: &mut Rng, nthreads: usize) {
     ctx.count(&format!("forced_schedule_threads:{}", nthreads));
     ctx.sample(format!("forced schedule: {} threads blocked on the end of each of {} {} clusters before the decoder's first publish; decoder held {} times", nthreads, nclusters, comp.name(), gate.held.load(Ordering::SeqCst)));
     ctx.case_done(fnv(format!("rv{}{}", case, nthreads).as_bytes()), clusters_done > 0);
+    let _ = std::fs::remove_dir_all(ctx.work.join(format!("c07-{}", case)));
+}
+
+
+/// No hook, no sleep: N threads read random contents spread over all the clusters of one pack
+/// (raw clusters for `Comp::None` — their plain readers go through the same cluster cache), as fast
+/// as they can, so that lookups, insertions and evictions of the cluster cache and the first-access
+/// switches of different clusters overlap as often as the machine allows.  Oracle only (there is no
+/// event history to replay): every read returns the stored bytes.
+fn hammer(ctx: &mut Ctx, case: u64, rng: &mut Rng, nthreads: usize, comp: Comp) {
+    let nclusters = 44 + rng.below(6) as usize; // more than the 40 cache slots
+    // hint No for an uncompressed pack is irrelevant (everything is raw); for a compressed pack every
+    // other cluster's worth of contents is raw
+    let mut items = vec![];
+    for c in 0..nclusters {
+        for _ in 0..4095 {
+            let len = 2 + rng.below(3) as usize;
+            items.push(CItem { data: rng.low_entropy(len), hint: if c % 2 == 0 { Hint::Yes } else { Hint::No }, src: Src::Mem });
+        }
+    }
+    let spec = PackSpec { comp, items, dedup: false, packaging: None, label: "c07-hammer".into() };
+    let dir = ctx.work.join(format!("c07-{}", case));
+    let built = match util::guarded(|| c01::build(&dir, &spec, rng, Arc::new(()))) {
+        Ok(Ok(b)) => b,
+        other => {
+            ctx.fail(case, "create", &format!("creation failed: {:?}", other.err()));
+            return;
+        }
+    };
+    let datas: Arc<Vec<Vec<u8>>> = Arc::new(spec.items.into_iter().map(|i| i.data).collect());
+    jbk::verif_hooks::set_hook(None);
+    let reader: jbk::Reader = jbk::FileSource::open(&built.file).unwrap().into();
+    let pack = match jbk::reader::ContentPack::new(reader) {
+        Ok(p) => Arc::new(p),
+        Err(e) => {
+            ctx.fail(case, "open", &format!("{:?}", util::err_kind(&e)));
+            return;
+        }
+    };
+    let reads = if ctx.quick() { 6000 } else { 40000 };
+    let (tx, rx) = std::sync::mpsc::channel::<(usize, Option<String>, u64)>();
+    for t in 0..nthreads {
+        let pack = Arc::clone(&pack);
+        let datas = Arc::clone(&datas);
+        let tx = tx.clone();
+        let seed = rng.next() | 1;
+        std::thread::spawn(move || {
+            TRNG.with(|c| c.set(seed));
+            let mut done = 0u64;
+            let mut bad = None;
+            for k in 0..reads {
+                let r = trand();
+                // a run of contents of one cluster, then jump to another cluster
+                let id = if k % 7 < 4 { (r >> 8) as usize % datas.len() } else { ((r >> 8) as usize % datas.len()) / 4095 * 4095 + (k % 4095) };
+                let id = id % datas.len();
+                let res = std::panic::catch_unwind(std::panic::AssertUnwindSafe(|| -> Result<Vec<u8>, String> {
+                    let region = pack.get_content(jbk::ContentIdx::from(id as u32)).map_err(|e| format!("err:{}", util::err_kind(&e)))?.ok_or("none")?;
+                    let mut v = vec![];
+                    region.stream().read_to_end(&mut v).map_err(|e| format!("io:{e}"))?;
+                    Ok(v)
+                }));
+                match res {
+                    Ok(Ok(v)) if v == datas[id] => done += 1,
+                    Ok(Ok(v)) => {
+                        bad = Some(format!("wrong-bytes\tno perturbation: thread {t} read #{k} of content {id} (cluster {}): got {} bytes (fnv {:016x}) expected {} bytes (fnv {:016x})", id / 4095, v.len(), crate::out::fnv(&v), datas[id].len(), crate::out::fnv(&datas[id])));
+                        break;
+                    }
+                    Ok(Err(e)) => {
+                        bad = Some(format!("read-error\tno perturbation: thread {t} read #{k} of content {id}: {e}"));
+                        break;
+                    }
+                    Err(_) => {
+                        bad = Some(format!("panic\tno perturbation: thread {t} read #{k} of content {id}: {}", util::take_panic()));
+                        break;
+                    }
+                }
+            }
+            let _ = tx.send((t, bad, done));
+        });
+    }
+    drop(tx);
+    let deadline = std::time::Instant::now() + std::time::Duration::from_secs(120);
+    let mut done = 0;
+    let mut total = 0u64;
+    while done < nthreads {
+        match rx.recv_timeout(deadline.saturating_duration_since(std::time::Instant::now())) {
+            Ok((_, bad, n)) => {
+                done += 1;
+                total += n;
+                if let Some(b) = bad {
+                    let (sig, what) = b.split_once('\t').unwrap();
+                    ctx.fail(case, sig, what);
+                }
+            }
+            Err(_) => break,
+        }
+    }
+    if done < nthreads {
+        ctx.fail(case, "timeout", &format!("no perturbation: {} of {} reader threads did not finish within the bound", nthreads - done, nthreads));
+    }
+    ctx.add("hammer_reads_ok", total);
+    ctx.count(&format!("hammer_threads:{}", nthreads));
+    ctx.count(&format!("hammer_comp:{}", comp.name().split(':').next().unwrap()));
+    ctx.sample(format!("no perturbation: {} threads x {} reads over {} clusters ({}), {} exact reads", nthreads, reads, nclusters, comp.name(), total));
+    ctx.case_done(fnv(format!("hm{}{}", case, nthreads).as_bytes()), total > 0);
     let _ = std::fs::remove_dir_all(ctx.work.join(format!("c07-{}", case)));
 }
